@@ -302,7 +302,8 @@ Section GlueRun.
     i_corr : forall w, 0 <= w < W ->
                m_last (znth dmix (d_mix (s_d st)) (chan_of_word g w 1)) = znth 0 (k_last k) w /\
                m_scale (znth dmix (d_mix (s_d st)) (chan_of_word g w 1)) = znth 0%float (k_scale k) w;
-    i_real : k_realigned k = false
+    i_real : k_realigned k = false;
+    i_lost : k_lost k = false
   }.
 
   Lemma frame_bits_from0 : frame_bits_wf_from g S 0.
@@ -320,7 +321,7 @@ Section GlueRun.
   Proof.
     intros D I HS. destruct (Wpos est g Hc Hr) as (HW & Hfs & Hn). fold W in HW, Hfs, Hn. fold fs in Hfs.
     pose proof (zlen_nonneg bytes) as Hb0. pose proof (zlen_nonneg S2) as Hs0.
-    destruct I as [iD ifp iRb imod ipend inext iext iml ikl iks icorr ireal].
+    destruct I as [iD ifp iRb imod ipend inext iext iml ikl iks icorr ireal ilost].
     set (R := k_R k) in *.
     assert (HD0 : 0 <= D) by (unfold D; apply zlen_nonneg).
     assert (HlenS : zlen S = D + zlen bytes + zlen S2).
@@ -342,7 +343,7 @@ Section GlueRun.
       cbn [k_D k_R]. rewrite iD. fold R. fold fs.
       destruct (D + zlen bytes - R <? 3 * fs) eqn:E3'; [|unfold L in E3; lia].
       split; [reflexivity|].
-      constructor; cbn [k_D k_R k_fpos k_next k_ext k_last k_scale k_realigned s_pend s_d]; auto; try lia.
+      constructor; cbn [k_D k_R k_fpos k_next k_ext k_last k_scale k_realigned k_lost s_pend s_d]; auto; try lia.
     - (* whole frames *)
       set (m := L / fs).
       assert (Hm3 : 3 <= m) by (unfold m; apply Z.div_le_lower_bound; lia).
@@ -359,7 +360,7 @@ Section GlueRun.
       eexists _, _, _. split; [reflexivity|]. split; [discriminate|].
       (* the checker *)
       unfold check_step, check_block, check_words. subst c.
-      cbn [c_g c_gap c_nsamp b_data b_dropped b_first b_ext k_D k_R k_fpos k_next k_ext k_last k_scale k_realigned].
+      cbn [c_g c_gap c_nsamp b_data b_dropped b_first b_ext k_D k_R k_fpos k_next k_ext k_last k_scale k_realigned k_lost].
       fold fs. fold W.
       assert (Eseg0 : zlen (znth [] segs 0) = m).
       { apply Hrows. unfold znth. cbn. apply nth_In. unfold zlen in Hls. lia. }
@@ -394,7 +395,7 @@ Section GlueRun.
       rewrite ?Z.eqb_refl. cbn [andb].
       cbn [k_D k_R]. replace (D + zlen bytes - (R + (m * fs + 0)) <? 3 * fs) with true by (unfold L in *; lia).
       split; [reflexivity|].
-      constructor; cbn [k_D k_R k_fpos k_next k_ext k_last k_scale k_realigned s_pend s_d d_next d_ext d_mix]; auto; try lia.
+      constructor; cbn [k_D k_R k_fpos k_next k_ext k_last k_scale k_realigned k_lost s_pend s_d d_next d_ext d_mix]; auto; try lia.
       + replace (R + (m * fs + 0)) with (R + m * fs) by lia. now rewrite Z_mod_plus_full.
       + f_equal; unfold L; lia.
       + rewrite zlen_map, zlen_zrange; lia.
@@ -455,7 +456,7 @@ Section GlueRun.
       step est true g nsamp st (OMix chans fracs) = (st', r) /\
       (forall kd, r <> RPanic kd) /\ check_step c S k (OMix chans fracs) r = Some k' /\ Inv D st' k'.
   Proof.
-    intros I Hlen. destruct I as [iD ifp iRb imod ipend inext iext iml ikl iks icorr ireal].
+    intros I Hlen. destruct I as [iD ifp iRb imod ipend inext iext iml ikl iks icorr ireal ilost].
     unfold step. rewrite Hlen, Z.eqb_refl. cbn [negb]. rewrite iml. rewrite mix_valid_same.
     unfold check_step. subst c. cbn [c_g c_nsamp].
     destruct (mix_chans_valid g chans) eqn:Ev.
@@ -465,7 +466,7 @@ Section GlueRun.
       rewrite Hmx. eexists _, _, _. split; [reflexivity|]. split; [discriminate|].
       cbn [Bool.eqb]. split; [reflexivity|].
       destruct HC as (HCl & HCs & HCw).
-      constructor; cbn [k_D k_R k_fpos k_next k_ext k_last k_scale k_realigned s_pend s_d d_next d_ext d_mix]; auto.
+      constructor; cbn [k_D k_R k_fpos k_next k_ext k_last k_scale k_realigned k_lost s_pend s_d d_next d_ext d_mix]; auto.
     - eexists _, _, _. split; [reflexivity|]. split; [discriminate|]. cbn [Bool.eqb]. split; [reflexivity|].
       constructor; auto.
   Qed.
@@ -556,7 +557,7 @@ Lemma start_inv (est : Z -> Z -> Z) g S next ext prev : 1 <= ncols g -> 2 <= nro
 Proof.
   intros Hc Hr. destruct (Wpos est g Hc Hr) as (HW & Hfs & Hn).
   assert (Hr1 : 1 <= nrows g) by lia.
-  constructor; cbn [start_state start_cst start_dstate k_D k_R k_fpos k_next k_ext k_last k_scale k_realigned
+  constructor; cbn [start_state start_cst start_dstate k_D k_R k_fpos k_next k_ext k_last k_scale k_realigned k_lost
                     s_pend s_d d_next d_ext d_mix]; try reflexivity; try lia.
   - rewrite zlen_map, zlen_zrange; lia.
   - rewrite zlen_map, zlen_zrange; lia.
